@@ -145,11 +145,12 @@ func (p *Parser) ParseWithRecovery(tokens []token.Token) ([]ast.Statement, []err
 
 // ParseWithRecoveryFromModelTokens parses tokenizer output with error recovery.
 func (p *Parser) ParseWithRecoveryFromModelTokens(tokens []models.TokenWithSpan) ([]ast.Statement, []error) {
-	converted, err := convertModelTokens(tokens)
+	result, err := convertModelTokensWithPositions(tokens)
 	if err != nil {
 		return nil, []error{fmt.Errorf("token conversion failed: %w", err)}
 	}
-	return p.parseWithRecovery(converted)
+	p.positions = result.PositionMapping
+	return p.parseWithRecovery(result.Tokens)
 }
 
 // parseWithRecovery is the internal implementation shared by both public APIs.
